@@ -102,9 +102,9 @@ def generate_high_level_commands_for_sched_op(sched_op, schedule):
     skirt = parent_op.attrs.get("skirt", None)
     upscaling = 1
     if sched_op.op_type == Op.Conv2DBackpropInputSwitchedBias:
-        upscaling = ofm_shape.height // ifm.shape.height
+        upscaling = ofm_shape.height // sched_op.ifm_read_shape.height
     elif is_nearest(sched_op.resampling_mode):
-        upscaling = round_up_divide(ofm_shape.height, ifm.shape.height)
+        upscaling = round_up_divide(ofm_shape.height, sched_op.ifm_read_shape.height)
 
     # Get kernel height and height dilation
     k_height = 1
